@@ -31,7 +31,9 @@ def build_vec(v, rng, style):
     return np.array(v, dtype="uint8")
 
 
-def run_agg(vecs, via, rng):
+def run_agg(vecs, via, rng, rollups=False):
+    """rollups: the vectors are themselves roll-ups of earlier aggregations (CollectedResults whose function is
+    qartod.aggregate): regrouping must not lose what only an earlier roll-up carries"""
     import numpy as np
     from ioos_qc import qartod
     from ioos_qc.results import CollectedResult
@@ -44,6 +46,10 @@ def run_agg(vecs, via, rng):
         else:
             crs = [CollectedResult(stream_id="s%d" % i, package="qartod", test="t%d" % i, function=qartod.gross_range_test,
                                    results=a) for i, a in enumerate(arrs)]
+            if rollups:
+                marks = [rng.random() < 0.6 for _ in arrs]
+                crs = [CollectedResult(stream_id="", package="qartod", test="rollup%d" % i, function=qartod.aggregate, results=a)
+                       if m else c for i, (a, c, m) in enumerate(zip(arrs, crs, marks))]
             if via == "aggregate":
                 r = qartod.aggregate(crs)
             else:
@@ -93,7 +99,7 @@ class Rec:
             else:
                 vs2 = rel.pop("vecs")
             via2 = self.rng.choice(["compare", "aggregate", "store"])
-            o2, _ = run_agg(vs2, via2, self.rng)
+            o2, _ = run_agg(vs2, via2, self.rng, rollups=(rel["kind"] == "group" and self.rng.random() < 0.6))
             eid = len(self.events) + 1
             self.base_of[eid] = bid
             self.events.append({"id": eid, "sid": self.sid, "vecs": vs2, "rel": rel, "via": via2, "obs": o2})
